@@ -560,6 +560,66 @@ def c09_8(ck, prog, rid='C09.8'):
         r.ok('expect_reply:stamp-from-clock-last')
 
 
+def c09_10(ck, prog, rid='C09.10'):
+    """Arming of the expiry timer: only "look now", and always when asked to."""
+    E = 'bus/expirelist.c'
+    r = ck.rule(rid, 'the expiry timer of a list is armed for "now" by the functions that add an item or ask for a '
+                're-check, and the exact wait is computed only by the expiry walk: in bus_expire_list_add / _add_link / '
+                '_recheck_immediately every bus_expire_timeout_set_interval is given the constant 0; '
+                '_recheck_immediately reaches it on every path; add / add_link reach it on every path on which the item '
+                'was stored and the timer is not running', 'DOM',
+                breaks='a newer call pushes the shared timer out, so an older unanswered call is not expired at its '
+                'deadline (under steady traffic: never) and its late reply is let through; or the entries of a '
+                'disconnected callee are not expired at once and keep counting against the caller\'s limit', floor=4)
+    n = 0
+    for name in ('bus_expire_list_add', 'bus_expire_list_add_link', 'bus_expire_list_recheck_immediately'):
+        fn = prog.fn(name, E)
+        sets = [c for b, i, c in fn.calls('bus_expire_timeout_set_interval')]
+        key = '%s:arms-for-now' % name
+        n += 1
+        if not sets:
+            r.violation(key, fn.name, E, fn.line, '%s no longer arms the expiry timer' % name)
+            continue
+        badv = [c for c in sets if len(c['args']) < 2 or not is_int(c['args'][1], 0)]
+        if badv:
+            r.violation(key, fn.name, E, badv[0]['line'], '%s arms the timer with %s instead of 0: the walk that computes '
+                        'the exact wait is put off' % (name, estr(badv[0]['args'][1]) if len(badv[0]['args']) > 1 else '?'))
+        else:
+            r.ok(key)
+        # on which paths it is reached
+        set_ids = {c['id'] for c in sets}
+        en = {c['id'] for b, i, c in fn.calls('dbus_timeout_get_enabled')}
+        stored = {c['id'] for b, i, c in fn.calls(('_dbus_list_prepend', '_dbus_list_prepend_link', '_dbus_list_append',
+                                                  '_dbus_list_append_link'))}
+        key2 = '%s:always-when-needed' % name
+
+        def on_event(user, ev, ctx, set_ids=set_ids):
+            if ev['ev'] == 'call' and ev['e'].get('id') in set_ids:
+                return True
+            return user
+
+        def on_exit(user, ctx, ret, ev, name=name, en=en, stored=stored, fn=fn):
+            if user:
+                return
+            if name != 'bus_expire_list_recheck_immediately':
+                # excused: the item was not stored, or the timer was found running
+                if any(ctx.result_known(i) is False for i in stored):
+                    return
+                if ret is not None and ctx.ret_status(ret) == 'fail':
+                    return
+                if any(ctx.result_known(i) is True for i in en):
+                    return
+            ctx.report('%s can return without having armed the timer%s' % (
+                name, '' if name.endswith('immediately') else ' although the item was stored and the timer was not found running'),
+                ev['line'] if ev else fn.line, key='unarmed')
+        ex = Explorer(fn, init=False, on_event=on_event, on_exit=on_exit, calls='ALL', track='auto', cap=50000).run()
+        n += 1
+        if ex.reports:
+            r.from_reports(ex.reports, keyfn=lambda k, rep, key2=key2: key2)
+        else:
+            r.ok(key2)
+
+
 def run(ck):
     ck.explanation = (
         'Static path-sensitive rules over bus/bus.c (policy gate) and bus/connection.c (pending replies): a slot '
@@ -571,6 +631,7 @@ def run(ck):
     ck.not_decided = ('timing of expiry; that policy actually denies unrequested replies for a given '
                       'configuration (C06); histories with serial reuse across wrap-around')
     for v, prog in ck.programs(thorough_variants=('B',)):
+        c09_10(ck, prog)
         from rules import listops
         rq = ck.rule('C09.9', 'the public list operations do what their names say (dbus/dbus-list.c; abstract interpretation of their CFG over every circular list of 0..3 links with equal and distinct data, every link / anchor / data argument, with and without memory for a new link): resulting order, return value, freed and detached links agree with the specification of append, prepend, insert_after, remove (first match), remove_last / find_last (last match), remove_link, clear, get/pop first/last (link), get_length, length_is_one', 'ABS', breaks='the pending-reply list drops or duplicates an entry when another one is removed or expires: a reply is refused as unrequested, or a slot is never freed', floor=15)
         listops.check(prog, rq)
